@@ -39,6 +39,7 @@ Inductive wstmt : Type :=
 | WStr (len:Z) (a:nat)                            (* AddStr(text a, len): fixed length, filled with 0xff *)
 | WAISStr (len:Z) (a:nat)                         (* AddAISStr(text a, len): upper case 6 bit alphabet, filled with '@' *)
 | WVarStr (maxlen:Z) (a:nat)                      (* AddVarStr(text a, maxlen, ...) for ASCII text: length, type 1, characters *)
+| WList (n:nat) (a:nat)                           (* for each element of the zero-terminated list a: an n-byte integer field *)
 | WIf (c:iexpr) (t e:wstmt).
 
 Record setter : Type := { s_pgn : Z; s_prio : Z; s_dest : option iexpr; s_body : wstmt }.
@@ -64,6 +65,13 @@ Inductive pstmt : Type :=
 
 (* p_guard = Some n: the function starts with `if (N2kMsg.PGN != n) return false;` *)
 Record parser : Type := { p_guard : option Z; p_body : pstmt }.
+
+(* how the harness initialises an output before the call (what is printed when the parser does not assign it) *)
+Inductive outsig : Type :=
+| OI (sentinel:Z)        (* integer output preset to a constant *)
+| OIO (a:nat)            (* in/out integer: preset to input argument a *)
+| OD                     (* double preset to 12345.0 *)
+| OT (size:iexpr).       (* text buffer of that many bytes preset to "~" *)
 
 (* a message as the setters leave it and the parsers see it; data may be longer than datalen (bytes beyond the payload) *)
 Record msg : Type := { m_pgn : Z; m_prio : Z; m_dest : Z; m_len : Z; m_data : list Z }.
